@@ -11,6 +11,8 @@ def run(rep, fb, tier):
     builder.rule_builder_table(rep, fb)
     builder.rule_arraybuilder_update(rep, fb)
     builder.rule_growable(rep, fb)
+    from ..rules import methodrules
+    methodrules.rule_indexed_builder(rep, fb)
     forward.rule_same_name(rep, fb, select=lambda f: (f["cls"] or "").endswith("Builder") or f["cls"] == "GrowableBuffer", floor=100, name="FORWARD.same-name:builders")
     safety.rule_extern_c_nothrow(rep, fb)
     rep.units = fb.units
